@@ -5,6 +5,8 @@ CF translation units (floating-point core against the hardware, per format):
 make_fraction translation units: one per (component type, floating type) pair, CNL_DEBUG by default
 (failed internal assertions are then visible as UNREACHABLE through the abort hook) and CNL_RELEASE
 builds of the main pairs (where `unreachable()` reports through the hook).
+make_fraction with CNL component types (`C17 mfw`): wide_integer (multi-word / single-word), overflow_integer (all reporting
+tags, built-in and wide representations), elastic_integer, rounding_integer; five (component, floating) instantiations per TU.
 """
 import random
 
@@ -19,6 +21,60 @@ PAIRS_MORE = [('i32', 'f80'), ('i16', 'f80'), ('i128', 'f80')]
 
 def main_src(body, seed_off):
     return '#include "%s"\nint main(){ install(); Rng rng(seed_from_env()*1000003u+%d);\n%s}\n' % (H, seed_off, body)
+
+
+OVT = {'sat': 'saturated_overflow_tag', 'trp': 'trapping_overflow_tag', 'thr': 'cnl::_impl::throwing_overflow_tag'}
+
+
+def mfw_tus(thorough, rnd):
+    """component types that are CNL numbers x floating types; (C++ type, floating types, full lattice?)"""
+    W = lambda n: 'wide_integer<%d>' % n
+    OV = lambda r, t: 'overflow_integer<%s, %s>' % (r, OVT[t])
+    allf, f2 = ['f32', 'f64', 'f80'], ['f32', 'f64']
+    grid = []
+    # multi-word wide_integer: a whole number of 32-bit limbs (128, 160, 256 + one more) and not (200, 255 + one more)
+    for n in [128, 160, 256, rnd.choice([192, 224, 288, 320, 512])]:
+        grid.append((W(n), allf))
+    for n in [200, 255, rnd.choice([129, 130, 159, 161, 182, 300, 500])]:
+        grid.append((W(n), allf))
+    # single-word wide_integer
+    grid.append((W(40), allf))
+    grid.append((W(rnd.choice([31, 33, 50, 62, 63, 64, 100, 127])), f2 + (['f80'] if thorough else [])))
+    # overflow_integer over built-in representations, every reporting tag
+    for rep in ['int', 'long long']:
+        for t in ['sat', 'trp', 'thr']:
+            grid.append((OV(rep, t), allf if (t != 'thr' or thorough) else f2))
+    grid.append((OV('vh::I', rnd.choice(['sat', 'trp'])), ['f64', 'f80']))
+    # overflow_integer over wide representations (portable overflow tests, no intrinsics)
+    grid.append((OV(W(40), 'trp'), allf))
+    grid.append((OV(W(40), 'sat'), f2))
+    grid.append((OV(W(40), 'thr'), ['f64']))
+    grid.append((OV(W(rnd.choice([33, 50, 62])), 'trp'), f2))
+    grid.append((OV(W(rnd.choice([20, 31])), rnd.choice(['trp', 'sat'])), f2))
+    # elastic_integer, rounding_integer
+    grid.append(('elastic_integer<31>', allf))
+    grid.append(('elastic_integer<63>', ['f64', 'f80']))
+    grid.append(('elastic_integer<%d>' % rnd.choice([15, 20, 30, 40, 62]), f2))
+    grid.append(('rounding_integer<int>', f2))
+    grid.append(('rounding_integer<long long>', ['f64'] + (['f80'] if thorough else [])))
+    steps, nrand = (5, 60) if not thorough else (17, 400)
+    calls = []
+    for (ct, fs) in grid:
+        for fn in fs:
+            calls.append('  mfw_sweep<%s, %s>(rng, %d, %d);\n' % (ct, FT[fn], steps, nrand))
+    res = []
+    per = 5
+    for i in range(0, len(calls), per):
+        body = '  g_hang_budget = %d;\n' % (60 if not thorough else 600) + ''.join(calls[i:i + per])
+        res.append(dict(name='C17_mfw_%d' % (i // per), src=main_src(body, 200 + i), compiler='g++', run_timeout=900))
+        if thorough and (i // per) % 3 == 0:
+            res.append(dict(name='C17_mfw_%d_clang' % (i // per), src=main_src(body, 200 + i), compiler='clang++', run_timeout=900))
+    # release builds (a failed internal assertion is `unreachable()` there) of the corner types
+    rel = ['  mfw_sweep<%s, %s>(rng, %d, %d);\n' % (ct, ft, steps, nrand) for (ct, ft) in
+           [(W(128), 'double'), (W(200), 'float'), (OV('int', 'sat'), 'float'), (OV('long long', 'trp'), 'double'),
+            (OV(W(40), 'trp'), 'double'), ('elastic_integer<31>', 'float')]]
+    res.append(dict(name='C17_mfw_rel', src=main_src('  g_hang_budget = 60;\n' + ''.join(rel), 299), compiler='g++', defines=['CNL_RELEASE'], run_timeout=900))
+    return res
 
 
 def tus(tier, seed):
@@ -69,18 +125,25 @@ def tus(tier, seed):
             if thorough and k < 4:
                 res.append(dict(name='C17_mf_%s_%s_%s_clang' % (it, fn, tag), src=main_src(body, 100 + k), compiler='clang++', defines=defs, run_timeout=900))
         k += 1
+    # ---- make_fraction with component types that are CNL numbers (table `C17 mfw`)
+    res += mfw_tus(thorough, rnd)
     # deduction guides (definition.h): fraction(float) -> fraction<int32>, fraction(double) -> fraction<int64>, fraction(long double) -> fraction<int128>
     res.append(dict(name='C17_guides', src=main_src('  mf_guides(rng, %d);\n' % (60 if not thorough else 400), 99), compiler='g++'))
     return res
 
 
 THOROUGH_SCALE = 1
+RULE_W = (" Components that are CNL numbers (mfw): multi-word wide_integer of a whole number of limbs (128, 160, 256, +1 seeded) and not (200, 255, "
+          "+1 seeded), 64-bit limbs, single-word wide_integer, overflow_integer<int | long long | int128 | wide_integer<N>, saturated | trapping | "
+          "throwing>, elastic_integer, rounding_integer, each x float/double/long double: everyday values, integers at and next to the component "
+          "limits (2^D - 0..4, halves, float neighbours), powers of two down to 2^-(D+2) with neighbours, the exponent lattice x mantissa steps, "
+          "random mantissas / ratios / integers of random bit length.")
 RULE = ("make_fraction: per (component type, floating type) pair — every binary exponent from below the point where the search can "
         "succeed up to the numerator limit x a mantissa lattice (seed-jittered) x both signs, a coarse lattice over the remaining (tiny) "
         "exponents down to the smallest subnormal, random full mantissas, integers, integers + dyadic fractions, small ratios p/q, decimal "
         "fractions, values next to the numerator limit; per-case interval timer (hang -> TIMEOUT). A case is non-trivial when the input "
         "is in the property's domain (finite, |x| <= max). CF: structured operand lists (specials, subnormals, powers of two +- ulp, "
-        "half/quarter-ulp companions, limits of every integer type +- 0.5/1/2, random significand patterns) cross-multiplied.")
+        "half/quarter-ulp companions, limits of every integer type +- 0.5/1/2, random significand patterns) cross-multiplied." + RULE_W)
 TRUSTED = ["CnlModel.CFloat reading of IEEE 754 binary arithmetic (round-to-nearest-even, x86-64 SSE / x87 extended), validated by the CF table",
            "harness interval timer: TIMEOUT = no result within C17_TIMEOUT_US (default 60 ms) of CPU-bound search"]
 ASSUMPTIONS = ["baseline x86-64 ISA: no fused multiply-add contraction; FLT_EVAL_METHOD = 0; default rounding mode",
